@@ -656,7 +656,8 @@ class C06(core.Check):
             '%s %s' % (n, 'deletes+sets' if d and x else 'deletes' if d else 'sets' if x else 'no-reset') for n, a, d, x in rows))
 
         # (b) Response.finalize
-        req = src('cherrypy/_cprequest.py')
+        from ..translate import pynorm
+        req = pynorm.normalise(src('cherrypy/_cprequest.py'))   # helpers inlined, single-use locals folded
         fin = find(req, 'finalize', 'Response')
         chain = next((n for n in fin.body if isinstance(n, ast.If) and ast.unparse(n.test) == 'self.stream'), None)
         if chain is None or len(chain.orelse) != 1 or not isinstance(chain.orelse[0], ast.If):
@@ -674,8 +675,8 @@ class C06(core.Check):
         codes = sorted(ast.literal_eval(member.comparators[0]))
         stream_ok = canon(chain.body) == ["if dict.get(n0, 'Content-Length') is None:\n    dict.pop(n0, 'Content-Length', None)"]
         nb_ok = canon(nb.body) == ["dict.pop(n0, 'Content-Length', None)", 'self._flush_body()', "self.body = b''"]
-        else_ok = canon(nb.orelse) == ["if dict.get(n0, 'Content-Length') is None:\n    n1 = self.collapse_body()\n"
-                                       "    dict.__setitem__(n0, 'Content-Length', len(n1))"]
+        else_ok = canon(nb.orelse) == ["if dict.get(n0, 'Content-Length') is None:\n"
+                                       "    dict.__setitem__(n0, 'Content-Length', len(self.collapse_body()))"]
         col = find(req, 'collapse_body', 'Response')
         col_ok = canon(col.body) == ["n0 = b''.join(self.body)", 'self.body = n0', 'return n0']
         # nothing after the chain touches body or Content-Length
